@@ -53,6 +53,8 @@ type FuncContract struct {
 	Pure       bool
 	PureNames  []string
 	Props      []string
+	Splits     []*Clause
+	Reveal     map[string]bool
 	Trusted    bool
 	Lib        bool
 	Inline     bool // closure bodies that are expanded at their call sites
@@ -77,6 +79,7 @@ type SpecFunc struct {
 	File      string
 	Line      int
 	Recursive bool
+	Opaque    bool // uninterpreted unless the function under proof reveals it
 	Reads     []string // heap arrays read (computed)
 	readsDone bool
 }
@@ -93,8 +96,9 @@ type Axiom struct {
 }
 
 type IfaceSpec struct {
-	Key  string // (<iface type>).<method>
-	Spec string // spec function applied to the receiver value
+	Key      string // (<iface type>).<method>
+	Spec     string // spec function applied to the receiver value
+	Requires string // optional spec predicate over the receiver that every call site must establish
 }
 
 type GlobalFact struct {
@@ -106,7 +110,7 @@ type GlobalFact struct {
 
 var clauseKeywords = map[string]bool{"func": true, "spec": true, "axiom": true, "requires": true, "ensures": true,
 	"assigns": true, "effects": true, "nilable": true, "loop": true, "pure": true, "trusted": true, "iface": true,
-	"import": true, "inline": true, "global": true, "props": true}
+	"import": true, "inline": true, "global": true, "props": true, "split": true, "reveal": true}
 
 func firstWord(s string) string {
 	s = strings.TrimSpace(s)
@@ -257,6 +261,15 @@ func (P *Program) parseClauses(lines []cline, sc *Scope, pkgPath string, lib boo
 		case "pure":
 			cur.Pure = true
 			cur.PureNames = splitNames(rest)
+		case "split":
+			for _, part := range splitTopLevel(rest, ',') {
+				part = strings.TrimSpace(part)
+				e, err := parseSpecExpr(part)
+				if err != nil {
+					return errf(l, "%v in %q", err, part)
+				}
+				cur.Splits = append(cur.Splits, &Clause{Kind: "split", Text: part, Expr: e, File: l.file, Line: l.line})
+			}
 		case "props":
 			cur.Props = append(cur.Props, splitNames(rest)...)
 		case "trusted":
@@ -294,8 +307,23 @@ func (P *Program) parseClauses(lines []cline, sc *Scope, pkgPath string, lib boo
 			default:
 				return errf(l, "bad loop clause kind %q", fs[1])
 			}
+		case "reveal":
+			if cur.Reveal == nil {
+				cur.Reveal = map[string]bool{}
+			}
+			for _, n := range splitNames(rest) {
+				cur.Reveal[n] = true
+			}
 		case "spec":
+			opaque := false
+			if strings.HasPrefix(rest, "opaque ") {
+				opaque = true
+				rest = strings.TrimSpace(strings.TrimPrefix(rest, "opaque "))
+			}
 			sf, err := P.parseSpecDecl(rest, sc)
+			if err == nil {
+				sf.Opaque = opaque
+			}
 			if err != nil {
 				return errf(l, "%v", err)
 			}
@@ -338,7 +366,12 @@ func (P *Program) parseClauses(lines []cline, sc *Scope, pkgPath string, lib boo
 				return errf(l, "bad iface clause")
 			}
 			key := canonFuncRefScoped(strings.TrimSpace(fs[0]), pkgPath, sc, P)
-			P.Ifaces[key] = &IfaceSpec{Key: key, Spec: strings.TrimSpace(fs[1])}
+			rhs := strings.Fields(fs[1])
+			is := &IfaceSpec{Key: key, Spec: rhs[0]}
+			if len(rhs) == 3 && rhs[1] == "requires" {
+				is.Requires = rhs[2]
+			}
+			P.Ifaces[key] = is
 			cur = nil
 		case "global":
 			// global <pkgvar> : <expr over the variable name>   (constant-global fact, checked syntactically)
